@@ -357,6 +357,8 @@ def families(tier, seed):
     F.append(Family("v1/lines", make_v1, "v1 file with two symbolic 'name type loc' lines", args=dict(body_spec=[(2, "ab "), b" ", (3, "mod "), b" ", (2, "l ") , b"\n", b"x class y\n"], ncuts=0),
                     nontrivial="compared"))
     F.append(Family("v1/chunks", make_v1, "v1 file, 1 symbolic read boundary", args=dict(body_spec=[b"a mod l\n", (1, "ab"), b" func m\n"], ncuts=1), nontrivial="compared"))
+    F.append(Family("v1/chunks-C2", make_v1, "v1 file of three entries, 2 symbolic read boundaries (an entry line straddling the second boundary)", args=dict(body_spec=[b"a mod l\n", (1, "ab"), b" func m\n", b"c class n\n"], ncuts=2),
+                    nontrivial="compared", max_forks=40000))
     for nn in ([1] if q else [1, 2]):
         F.append(Family("roundtrip/N%d" % nn, make_roundtrip, "inventory with 2 entries, symbolic domain/type/name(%d)/text" % nn, args=dict(nname=nn), nontrivial="roundtrip"))
     return F
